@@ -327,6 +327,11 @@ func (l *clex) parseTypeText() string {
 		l.fail("expected type name, got " + t.text)
 	}
 	sb.WriteString(t.text)
+	if t.text == "struct" && l.isOp("{") {
+		l.next()
+		l.expectOp("}")
+		return sb.String() + "{}"
+	}
 	if l.isOp(".") {
 		l.next()
 		sb.WriteString("." + l.next().text)
@@ -561,6 +566,7 @@ type FuncContract struct {
 	Ensures   []Clause
 	Loops     map[string]*LoopSpec
 	Wraps     []string
+	Measure   []Clause // termination measure of a recursive function (lexicographic)
 	Inline    bool
 	Pure      bool
 	Trusted   bool     // contract assumed, body not verified
@@ -678,7 +684,7 @@ func newContractSet() *ContractSet {
 
 var clauseKeywords = map[string]bool{
 	"props": true, "arith": true, "requires": true, "ensures": true, "loop": true,
-	"wraps": true, "inline": true, "pure": true, "trusted": true, "modifies": true,
+	"wraps": true, "inline": true, "pure": true, "trusted": true, "modifies": true, "measure": true,
 	"results": true, "params": true, "invariant": true, "decreases": true, "bag": true, "assert": true, "assume": true, "ghost": true, "safety": true,
 	"nosafety": true, "known": true, "note": true, "timeout": true, "calldepth": true, "dispatch": true, "noinline": true, "itercanonical": true, "frame": true,
 }
@@ -875,6 +881,12 @@ func (cs *ContractSet) parseContractLines(file, pkgPath string, lines []string, 
 				if err := addLoopClause(curLoop, word, rest, mk); err != nil {
 					return fmt.Errorf("%s:%d: %v", file, s.line, err)
 				}
+			case "measure":
+				c, err := mk("measure", rest)
+				if err != nil {
+					return err
+				}
+				cur.Measure = append(cur.Measure, c)
 			case "wraps":
 				cur.Wraps = append(cur.Wraps, unquote(rest))
 			case "inline":
